@@ -25,7 +25,8 @@ def renamable(x):
 
 
 SPECIAL_WORDS = ["environ", "main", "defined", "attribute", "sizeof", "typedef", "struct", "static", "return", "include", "define",
-                 "ifndef", "endif", "null", "true", "false", "bool", "errno", "stdin", "argv", "argc", "size_t", "ft", "inline", "restrict"]
+                 "ifndef", "endif", "null", "true", "false", "bool", "errno", "stdin", "argv", "argc", "size_t", "ft", "inline", "restrict",
+                 "if", "ifdef", "else", "elif", "undef", "pragma", "error", "line", "while", "for", "do", "int", "char", "void", "goto", "case", "enum", "union", "long"]
 _BY_LEN = {}
 for _w in SPECIAL_WORDS:
     for _i in range(len(_w)):
@@ -33,7 +34,7 @@ for _w in SPECIAL_WORDS:
             _BY_LEN.setdefault(_j - _i, set()).add(_w[_i:_j])
 _BY_LEN = {k: sorted(v) for k, v in _BY_LEN.items()}
 # names the tool's rules mention literally (read off the rule sources; used to aim the generator, not as an oracle)
-TOOL_WORDS = ["environ", "main", "defined", "attribute"]
+TOOL_WORDS = ["environ", "main", "defined", "attribute", "ifndef", "ifdef", "endif", "define", "include", "elif", "else", "undef", "pragma", "error"]
 _TOOL_BY_LEN = {}
 for _w in TOOL_WORDS:
     for _i in range(len(_w)):
@@ -125,11 +126,13 @@ def case(d):
         p = family.member_of(d, violating=1.0, ftype="c", opts={"force": ("global",)}, only=("D12",))
     elif k == 2:  # an operator glued to a parenthesised identifier (is it a cast? that must not depend on how the name is spelled)
         p = family.member_of(d, violating=1.0, ftype="c", only=("O12",))
+    elif k == 3:  # a function-like macro that stringifies / pastes its parameter (the parameter is a user identifier next to '#')
+        p = family.member_of(d, violating=1.0, opts={"force": ("define",)}, only=("P02b",))
     elif k == 1:  # a badly named macro
         p = family.member_of(d, violating=1.0, opts={"force": ("define",)}, only=("P01",))
     else:
         p = family.member_of(d, prefer=("D11", "D12", "F03", "P01", "T06", "T07", "T08", "T09", "D07", "D09"))
-    return p, renaming(d, p, 0.8 if k <= 2 else 0.3)
+    return p, renaming(d, p, 0.8 if k <= 3 else 0.3)
 
 
 def compare(camp, name, a_text, b_text, extra, relation="C18"):
